@@ -366,6 +366,10 @@ def sched_plan(tier):
             ([[blockIncr], [('incr', 'n', 1, 0)], [('incr', 'm', 1, 0)]],
              'absent', mode, 1 if tier == 'quick' else 2),
             ([[blockAbort], [S('a', 5)]], 'two', mode, None),
+            ([[('pop', 'a', 0)], [('block', (S('b', 2), S('c', 3)), None)]],
+             'file', mode, None),
+            ([[('pull', None, 'front', 0)],
+              [('block', (S('b', 2),), None)]], 'fileq', mode, None),
             # an operation of another thread that fails inside its own
             # transaction while this thread owns a block, then a second block
             ([[blockAB, ('block', (S('a', 5), S('c', BIGB)), 2)],
